@@ -23,7 +23,7 @@ The property that your change must break:
 
 Produce TWO different changes (different mechanisms / different places if at all possible), each of which:
   1. edits only library code under `transactron/` (not tests, not docs);
-  2. still imports/compiles, and the EXISTING test suite still passes with it (run at least the relevant test files, e.g. `/venv/bin/python -m pytest -q -p no:cacheprovider -n 8 test/core test/lib/...`; and, once per change at the end, the whole suite: `/venv/bin/python -m pytest -q -p no:cacheprovider -n 12 --timeout=900` which takes about 4 minutes; two hypothesis-based tests `test_count_leading_zeros` and `TestContentAddressableMemory::test_random` are known to be flaky - ignore those);
+  2. still imports/compiles, and the EXISTING test suite still passes with it (run the relevant test files and everything that could plausibly depend on the code you touch, e.g. `/venv/bin/python -m pytest -q -p no:cacheprovider -n 4 test/core test/lib/test_x.py test/utils/...`; do NOT run the whole suite - the machine is shared and the whole suite will be run for you afterwards; the hypothesis-based tests in test/utils/test_utils.py, test/lib/test_stack.py and `TestContentAddressableMemory::test_random` fail intermittently with DeadlineExceeded/Flaky under load even on the unchanged code - rerun such a failure alone before concluding anything);
   3. breaks the property above in a way that needs something specific to manifest: a particular interleaving / cycle pattern, a multi-step sequence of calls, an unusual configuration or input, or two cooperating sites that each look fine alone - NOT something that ordinary use would expose at once (otherwise the existing tests would catch it);
   4. is realistic: it should look like a plausible refactoring slip, off-by-one, wrong index, swapped operands, dropped condition, reordered statements etc., not sabotage with dead giveaways (no comments announcing the bug).
 
